@@ -3,6 +3,8 @@ C06 — duplicate packets are harmless; packet loss never yields spliced data.
 Theorems about the accumulator / pool model; the regenerated Go predicates are tied below.
 -/
 import Astits.Proofs.Pool
+import Astits.Proofs.Loss
+import Astits.Props.C02
 import Astits.Generated.Exprs
 import Astits.Generated.Facts
 namespace Astits.C06
@@ -152,5 +154,288 @@ def pkt (cc : Nat) (pusi : Bool) : Packet :=
 example : (pkt 3 true).header.hasPayload = true ∧ pktDI (pkt 3 true) = false
     ∧ ((pkt 3 true).header.pid == 0 || ProgramMap.has [] (pkt 3 true).header.pid) = false := by decide
 example : (poolRun [] [] [pkt 3 true, pkt 4 false, pkt 4 false, pkt 5 true]).1 = [[], [], [], [pkt 3 true, pkt 4 false]] := by decide
+
+
+/-! ## LOSS CLAUSE — packet loss never yields spliced data
+
+Accumulator / pool level, for a PID that is not flushed early (`(pid == 0 || pm.has pid) = false`).
+Helper development: `Astits/Proofs/Loss.lean`.
+
+Vocabulary (all from `Astits.Loss`):
+* `delivered pm pid s` — the non-empty groups handed to the unit parser while the packet sequence `s` of the PID is
+  read from an empty queue, followed by the queue left at the end (the end-of-stream drain), see `mem_delivered`;
+* `Headless v f` — `f` is a non-empty proper suffix of the packets of unit `v` (it lacks the unit's first packet);
+* `GapAt us a gap b U1 M U3 x y` — where the gap lies: `us = U1 ++ M ++ U3`; `U1` are the units received whole before
+  the gap, `U3` those received whole after it, `M` (non-empty) the units that lost at least one packet; `x` is what
+  was received of the first unit of `M` (a proper prefix of it, possibly empty), `y` what is received of the last unit
+  of `M` (a proper suffix, possibly empty): `a = U1.packets ++ x`, `b = y ++ U3.packets`, `M.packets = x ++ gap ++ y`;
+* `keptBefore U1 x` — `U1`, or `U1` without its last unit when `x = []` (the gap starts on a unit boundary);
+* `LossyN n us gs` — `gs` arises from `us`, in order, by delivering a unit whole, dropping it, or delivering a headless
+  fragment of it; `n` units are not delivered whole.
+-/
+section LossClause
+open Astits.Loss
+
+/-- **the counter after a gap** (counters wrap modulo 16): after `g` lost packets, `1 ≤ g ≤ 14`, the next packet's
+counter is neither the counter `c` of the last packet received (so it is not taken for a duplicate) nor its successor
+(so it is not taken for the continuation) -/
+theorem loss_counter_jump (c : Nat) (gap : List Packet) (p : Packet) (r : List Packet)
+    (h : CCRun c (gap ++ p :: r)) (hg1 : 1 ≤ gap.length) (hg2 : gap.length ≤ 14) :
+    p.header.continuityCounter = (c + gap.length + 1) % 16 ∧
+    p.header.continuityCounter ≠ c ∧ p.header.continuityCounter ≠ (c + 1) % 16 := by
+  obtain ⟨e, _⟩ := gap_counter c gap p r h
+  exact ⟨e, gap_jump c gap.length _ hg1 hg2 e⟩
+
+/-- **what the accumulator does at the jump**: the queue is discarded — not flushed, even when the packet starts a
+unit, so a unit received whole just before the gap is lost in that case — and the packet is queued alone -/
+theorem loss_discards_queue (pm : ProgramMap) (pid : Nat) (q : List Packet) (p : Packet) (l : Nat)
+    (hnp : (pid == 0 || pm.has pid) = false) (hq : lastCC q = some l) (hp : PlainPayload p)
+    (h1 : p.header.continuityCounter ≠ l) (h2 : p.header.continuityCounter ≠ (l + 1) % 16) :
+    accAdd pm pid q p = ([], [p]) := accAdd_jump pm pid q p l hnp hq hp h1 h2
+
+/-- **(L1) one gap, precise shape.** `us` is a chain of well-formed units, `a ++ gap ++ b` its packet sequence, the
+`gap` (1..14 packets) is lost and followed by at least one received packet. Then the groups delivered for `a ++ b` are,
+in order: the units received whole before the gap (`U1`) — except the last of them when the gap starts on a unit
+boundary: that unit is still queued when the gap occurs and is discarded —, then at most one headless fragment `y`
+(the tail of the unit cut by the gap), then the units received whole after the gap (`U3`). The prefix `x` of the
+unit in which the gap starts is discarded. Nothing else is delivered: no group mixes packets from before and after
+the gap. -/
+theorem loss_one_gap (pm : ProgramMap) (pid : Nat) (us : List UnitPk) (a gap b : List Packet)
+    (hnp : (pid == 0 || pm.has pid) = false) (hc : ChainOK [] us)
+    (hs : us.flatMap UnitPk.packets = a ++ gap ++ b) (hg1 : 1 ≤ gap.length) (hg2 : gap.length ≤ 14) (hb : b ≠ []) :
+    ∃ U1 M U3 x y, GapAt us a gap b U1 M U3 x y ∧
+      delivered pm pid (a ++ b) =
+        (keptBefore U1 x).map UnitPk.packets ++ (if y = [] then [] else [y]) ++ U3.map UnitPk.packets ∧
+      (y ≠ [] → ∃ v ∈ us, Headless v y) := by
+  obtain ⟨U1, M, U3, x, y, hG, hd⟩ := one_gap pm pid us a gap b hnp (ChainOK0_of_chain us hc) hs hg1 hg2 hb
+  exact ⟨U1, M, U3, x, y, hG, hd, hG.headless⟩
+
+/-- the loss-free reference: the groups delivered for the whole chain are exactly the units -/
+theorem loss_free_delivered (pm : ProgramMap) (pid : Nat) (us : List UnitPk)
+    (hnp : (pid == 0 || pm.has pid) = false) (hc : ChainOK [] us) :
+    delivered pm pid (us.flatMap UnitPk.packets) = us.map UnitPk.packets :=
+  delivered_chain pm pid us hnp (ChainOK0_of_chain us hc)
+
+theorem chain_units_ok (q : List Packet) (us : List UnitPk) (h : ChainOK q us) : ∀ u ∈ us, UnitOK u := by
+  induction us generalizing q with
+  | nil => intro u hu; cases hu
+  | cons v r ih =>
+    intro u hu
+    rcases List.mem_cons.mp hu with rfl | hu
+    · exact h.1
+    · exact ih _ h.2.2 u hu
+
+/-- **(L1) never a splice**: every non-empty group flushed while `a ++ b` is read from an empty queue, and the queue
+left at the end, is the packet list of a unit of `us` (whole) or a headless fragment of a unit of `us`, none of whose
+packets starts a unit -/
+theorem loss_one_gap_no_splice (pm : ProgramMap) (pid : Nat) (us : List UnitPk) (a gap b : List Packet)
+    (hnp : (pid == 0 || pm.has pid) = false) (hc : ChainOK [] us)
+    (hs : us.flatMap UnitPk.packets = a ++ gap ++ b) (hg1 : 1 ≤ gap.length) (hg2 : gap.length ≤ 14) (hb : b ≠ [])
+    (g : List Packet) (hg : g ≠ [])
+    (hmem : g ∈ (accRun pm pid [] (a ++ b)).1 ∨ g = (accRun pm pid [] (a ++ b)).2) :
+    (∃ u ∈ us, g = u.packets) ∨
+    (∃ v ∈ us, Headless v g ∧ ∀ p ∈ g, p.header.payloadUnitStartIndicator = false) := by
+  have hl := one_gap_lossy pm pid us a gap b hnp (ChainOK0_of_chain us hc) hs hg1 hg2 hb
+  rcases hl.classify g ((mem_delivered pm pid (a ++ b) g).mpr ⟨hg, hmem⟩) with h | ⟨v, hv, hh⟩
+  · exact Or.inl h
+  · exact Or.inr ⟨v, hv, hh, headless_no_pusi v g (toOK0 (chain_units_ok [] us hc v hv)) hh⟩
+
+/-- **(L2) one gap, data level.** If no headless fragment of a unit of `us` is mistaken for a unit by the unit parser
+(`NoFalseStart`: `parseData` yields no data for it — `.ok []` or an error), the data delivered for the lossy stream
+are exactly the data of the kept units `keptBefore U1 x ++ U3`, a subsequence of the units sent; they are a
+subsequence of the loss-free data; and the units missing are at most the units that lost a packet (`M`) plus one
+(the unit immediately preceding the gap). -/
+theorem loss_one_gap_data (prs : ParserKind) (pm : ProgramMap) (pid : Nat) (us : List UnitPk) (a gap b : List Packet)
+    (hnp : (pid == 0 || pm.has pid) = false) (hc : ChainOK [] us)
+    (hs : us.flatMap UnitPk.packets = a ++ gap ++ b) (hg1 : 1 ≤ gap.length) (hg2 : gap.length ≤ 14) (hb : b ≠ [])
+    (hnf : ∀ v ∈ us, ∀ f, Headless v f → NoFalseStart prs pm f) :
+    ∃ U1 M U3 x y, GapAt us a gap b U1 M U3 x y ∧
+      deliveredData prs pm pid (a ++ b) = (keptBefore U1 x ++ U3).flatMap (fun u => dataOf prs pm u.packets) ∧
+      (keptBefore U1 x ++ U3).Sublist us ∧ us.length ≤ (keptBefore U1 x ++ U3).length + M.length + 1 ∧
+      (deliveredData prs pm pid (a ++ b)).Sublist (deliveredData prs pm pid (us.flatMap UnitPk.packets)) :=
+  one_gap_data prs pm pid us a gap b hnp (ChainOK0_of_chain us hc) hs hg1 hg2 hb hnf
+
+/-- **(L3) several gaps.** The stream sent is `a0 ++ g₁ ++ k₁ ++ … ++ gₙ ++ kₙ` (`origOf`), every lost block `gᵢ` has
+1..14 packets and every received block `kᵢ` at least one packet (`GapsOK`); the stream received is
+`a0 ++ k₁ ++ … ++ kₙ` (`lossyOf`). Then the groups delivered arise from the units sent, in order, by delivering a unit
+whole, dropping it, or delivering a headless fragment of it (`LossyN`): every group consists of packets of ONE unit.
+The units not delivered whole are at most the lost packets plus one per gap. -/
+theorem loss_multi_gap (pm : ProgramMap) (pid : Nat) (us : List UnitPk) (a0 : List Packet)
+    (tail : List (List Packet × List Packet))
+    (hnp : (pid == 0 || pm.has pid) = false) (hc : ChainOK [] us)
+    (hs : us.flatMap UnitPk.packets = origOf a0 tail) (hg : GapsOK tail) :
+    ∃ n, n ≤ (tail.map (fun gk => gk.1.length + 1)).sum ∧ LossyN n us (delivered pm pid (lossyOf a0 tail)) :=
+  multi_gapN pm pid tail hnp us a0 (ChainOK0_of_chain us hc) hs hg
+
+/-- **(L3) never a splice, several gaps** -/
+theorem loss_multi_gap_no_splice (pm : ProgramMap) (pid : Nat) (us : List UnitPk) (a0 : List Packet)
+    (tail : List (List Packet × List Packet))
+    (hnp : (pid == 0 || pm.has pid) = false) (hc : ChainOK [] us)
+    (hs : us.flatMap UnitPk.packets = origOf a0 tail) (hg : GapsOK tail)
+    (g : List Packet) (hgne : g ≠ [])
+    (hmem : g ∈ (accRun pm pid [] (lossyOf a0 tail)).1 ∨ g = (accRun pm pid [] (lossyOf a0 tail)).2) :
+    (∃ u ∈ us, g = u.packets) ∨
+    (∃ v ∈ us, Headless v g ∧ ∀ p ∈ g, p.header.payloadUnitStartIndicator = false) := by
+  have hl := multi_gap pm pid tail hnp us a0 (ChainOK0_of_chain us hc) hs hg
+  rcases hl.classify g ((mem_delivered pm pid _ g).mpr ⟨hgne, hmem⟩) with h | ⟨v, hv, hh⟩
+  · exact Or.inl h
+  · exact Or.inr ⟨v, hv, hh, headless_no_pusi v g (toOK0 (chain_units_ok [] us hc v hv)) hh⟩
+
+/-- **(L3) several gaps, data level**: under `NoFalseStart` the data delivered are a subsequence of the loss-free data -/
+theorem loss_multi_gap_data (prs : ParserKind) (pm : ProgramMap) (pid : Nat) (us : List UnitPk) (a0 : List Packet)
+    (tail : List (List Packet × List Packet))
+    (hnp : (pid == 0 || pm.has pid) = false) (hc : ChainOK [] us)
+    (hs : us.flatMap UnitPk.packets = origOf a0 tail) (hg : GapsOK tail)
+    (hnf : ∀ v ∈ us, ∀ f, Headless v f → NoFalseStart prs pm f) :
+    (deliveredData prs pm pid (lossyOf a0 tail)).Sublist (deliveredData prs pm pid (us.flatMap UnitPk.packets)) :=
+  multi_gap_data prs pm pid tail hnp us a0 (ChainOK0_of_chain us hc) hs hg hnf
+
+/-- **loss and duplicates together**: if, on top of the losses, received packets are repeated (`Dups`: each copy
+right after the original, any number of copies), exactly the same groups are delivered -/
+theorem loss_with_duplicates (pm : ProgramMap) (pid : Nat) (us : List UnitPk) (a0 : List Packet)
+    (tail : List (List Packet × List Packet))
+    (hnp : (pid == 0 || pm.has pid) = false) (hc : ChainOK [] us)
+    (hs : us.flatMap UnitPk.packets = origOf a0 tail) (s' : List Packet) (hd : Dups (lossyOf a0 tail) s') :
+    delivered pm pid s' = delivered pm pid (lossyOf a0 tail) :=
+  multi_gap_dups pm pid tail hnp us a0 (ChainOK0_of_chain us hc) hs s' hd
+
+/-! #### pool level: other PIDs interleaved -/
+
+/-- the non-empty groups the pool flushes for `pid` while the stream `S` (all PIDs) is read, then the queue left for
+`pid` -/
+def poolDelivered (pm : ProgramMap) (pid : Nat) (S : List Packet) : List (List Packet) :=
+  (C07.flushesOf pm pid [] S ++ [(C07.queueAfter pm [] S).get pid]).filter nonEmpty
+
+/-- at the pool, what is delivered for `pid` is what its accumulator delivers for the packets of `pid` -/
+theorem poolDelivered_eq (pm : ProgramMap) (pid : Nat) (S : List Packet)
+    (hS : ∀ p ∈ S, p.header.pid = pid → p.header.hasPayload = true ∧ p.header.transportErrorIndicator = false) :
+    poolDelivered pm pid S = delivered pm pid (S.filter fun p => p.header.pid == pid) := by
+  have hper := C07.per_pid pm pid S [] [] rfl
+  have hf : ∀ p ∈ (S.filter fun p => p.header.pid == pid),
+      p.header.pid = pid ∧ p.header.hasPayload = true ∧ p.header.transportErrorIndicator = false := by
+    intro p hp
+    obtain ⟨h1, h2⟩ := List.mem_filter.mp hp
+    have hpid : p.header.pid = pid := by simpa using h2
+    exact ⟨hpid, hS p h1 hpid⟩
+  have hacc := C02.pool_is_accumulator pm pid _ [] hf
+  unfold poolDelivered delivered groupsOf
+  rw [hper.1, hper.2, hacc.1, hacc.2]
+  simp [Pool.get]
+
+/-- **the loss clause at the pool**: `S'` is any stream (other PIDs, null packets, anything interleaved) whose packets
+on `pid` are the lossy sequence. What the pool delivers for `pid` arises from the units sent as in `loss_multi_gap`. -/
+theorem loss_at_pool (pm : ProgramMap) (pid : Nat) (us : List UnitPk) (a0 : List Packet)
+    (tail : List (List Packet × List Packet)) (S' : List Packet)
+    (hnp : (pid == 0 || pm.has pid) = false) (hc : ChainOK [] us)
+    (hs : us.flatMap UnitPk.packets = origOf a0 tail) (hg : GapsOK tail)
+    (hS' : (S'.filter fun p => p.header.pid == pid) = lossyOf a0 tail) :
+    ∃ n, n ≤ (tail.map (fun gk => gk.1.length + 1)).sum ∧ LossyN n us (poolDelivered pm pid S') := by
+  have hpl : ∀ p ∈ S', p.header.pid = pid → p.header.hasPayload = true ∧ p.header.transportErrorIndicator = false := by
+    intro p hp hpid
+    have hm : p ∈ lossyOf a0 tail := by
+      rw [← hS']; exact List.mem_filter.mpr ⟨hp, by simpa using hpid⟩
+    have := Consec_all _ (chain0_consec us (ChainOK0_of_chain us hc)) p (hs ▸ mem_lossyOf a0 tail p hm)
+    exact ⟨this.1, this.2.1⟩
+  rw [poolDelivered_eq pm pid S' hpl, hS']
+  exact loss_multi_gap pm pid us a0 tail hnp hc hs hg
+
+/-- **units on other PIDs are unaffected**: two streams with the same packets on `pid'` (e.g. before and after losing
+packets of another PID) deliver the same groups for `pid'` -/
+theorem loss_other_pids_unaffected (pm : ProgramMap) (pid' : Nat) (S S' : List Packet)
+    (h : (S.filter fun p => p.header.pid == pid') = (S'.filter fun p => p.header.pid == pid')) :
+    poolDelivered pm pid' S = poolDelivered pm pid' S' := by
+  unfold poolDelivered
+  rw [(C07.per_pid pm pid' S [] [] rfl).1, (C07.per_pid pm pid' S [] [] rfl).2,
+    (C07.per_pid pm pid' S' [] [] rfl).1, (C07.per_pid pm pid' S' [] [] rfl).2, h]
+
+/-! #### non-vacuity, and the model at the excluded points -/
+
+/-- packet number `i` of a test stream of 3-packet units on PID 256: counter `i mod 16`, payload `[i]` -/
+def lpkt (i : Nat) : Packet :=
+  { header := { continuityCounter := i % 16, hasAdaptationField := false, hasPayload := true,
+                payloadUnitStartIndicator := i % 3 == 0, pid := 256, transportErrorIndicator := false,
+                transportPriority := false, transportScramblingControl := 0 },
+    payload := [i] }
+
+def lunits (n : Nat) : List UnitPk := (List.range n).map fun j => ⟨lpkt (3 * j), [lpkt (3 * j + 1), lpkt (3 * j + 2)]⟩
+def lstream (n : Nat) : List Packet := (List.range n).map lpkt
+def ltags (gs : List (List Packet)) : List (List Nat) := gs.map (·.map fun p => p.payload.headD 0)
+
+/-- 8 units of 3 packets, counters 0..15, 0..7 (they wrap) -/
+example : ChainOK [] (lunits 8) := chainB_sound _ _ (by decide +kernel)
+example : (lunits 8).flatMap UnitPk.packets = lstream 24 := by decide +kernel
+example : ((256 : Nat) == 0 || ProgramMap.has [] 256) = false := by decide
+
+/-- loss-free: 8 units -/
+example : ltags (delivered [] 256 (lstream 24)) =
+    [[0, 1, 2], [3, 4, 5], [6, 7, 8], [9, 10, 11], [12, 13, 14], [15, 16, 17], [18, 19, 20], [21, 22, 23]] := by
+  decide +kernel
+
+/-- the hypotheses of `loss_one_gap` hold for: packets 5 and 6 lost (the gap spans a unit boundary) … -/
+example : (lunits 8).flatMap UnitPk.packets = (lstream 24).take 5 ++ ((lstream 24).drop 5).take 2 ++ (lstream 24).drop 7
+    ∧ 1 ≤ (((lstream 24).drop 5).take 2).length ∧ (((lstream 24).drop 5).take 2).length ≤ 14
+    ∧ (lstream 24).drop 7 ≠ [] := by decide +kernel
+/-- … and what is delivered: unit 0, the headless fragment `[7, 8]` of unit 2, units 3..7 (the prefix `[3, 4]` of unit 1
+is discarded) -/
+example : ltags (delivered [] 256 ((lstream 24).take 5 ++ (lstream 24).drop 7)) =
+    [[0, 1, 2], [7, 8], [9, 10, 11], [12, 13, 14], [15, 16, 17], [18, 19, 20], [21, 22, 23]] := by decide +kernel
+
+/-- a gap on a unit boundary followed by a unit start (unit 2 = packets 6, 7, 8 lost): unit 1 was received WHOLE and is
+nevertheless discarded — "the unit immediately preceding the gap" -/
+example : ltags (delivered [] 256 ((lstream 24).take 6 ++ (lstream 24).drop 9)) =
+    [[0, 1, 2], [9, 10, 11], [12, 13, 14], [15, 16, 17], [18, 19, 20], [21, 22, 23]] := by decide +kernel
+
+/-- the bound 14 is sharp: 14 packets lost (4..17) — no splice … -/
+example : ltags (delivered [] 256 ((lstream 30).take 4 ++ (lstream 30).drop 18)) =
+    [[0, 1, 2], [18, 19, 20], [21, 22, 23], [24, 25, 26], [27, 28, 29]] := by decide +kernel
+/-- … 15 packets lost (4..18): packet 19 carries the counter of packet 3 and is dropped as a duplicate, packet 20 is then
+taken for the continuation of packet 3: the group `[3, 20]` SPLICES units 1 and 6 … -/
+example : ltags (delivered [] 256 ((lstream 30).take 4 ++ (lstream 30).drop 19)) =
+    [[0, 1, 2], [3, 20], [21, 22, 23], [24, 25, 26], [27, 28, 29]] := by decide +kernel
+/-- … 16 packets lost (4..19): the counter has gone round once, the loss is invisible: `[3, 20]` again -/
+example : ltags (delivered [] 256 ((lstream 30).take 4 ++ (lstream 30).drop 20)) =
+    [[0, 1, 2], [3, 20], [21, 22, 23], [24, 25, 26], [27, 28, 29]] := by decide +kernel
+
+/-- no later packet (`b = []`, packets 22, 23 lost at the end of the stream): nothing reveals the gap, and the
+end-of-stream drain hands over the truncated unit `[21]` — a headed prefix, neither a whole unit nor a headless fragment -/
+example : ltags (delivered [] 256 ((lstream 24).take 22)) =
+    [[0, 1, 2], [3, 4, 5], [6, 7, 8], [9, 10, 11], [12, 13, 14], [15, 16, 17], [18, 19, 20], [21]] := by decide +kernel
+
+/-- two gaps (packets 4 and 10..12 lost) with a duplicate of packet 7 on top: `GapsOK` holds … -/
+example : lstream 24 = origOf ((lstream 24).take 4) [([lpkt 4], ((lstream 24).drop 5).take 5),
+      (((lstream 24).drop 10).take 3, (lstream 24).drop 13)]
+    ∧ GapsOK [([lpkt 4], ((lstream 24).drop 5).take 5), (((lstream 24).drop 10).take 3, (lstream 24).drop 13)] := by
+  constructor
+  · decide +kernel
+  · intro gk hgk
+    simp only [List.mem_cons, List.not_mem_nil, or_false] at hgk
+    rcases hgk with rfl | rfl <;> decide +kernel
+/-- … and what is delivered: unit 0; `[5]` (tail of unit 1); unit 2 is flushed whole; `[9]` (prefix of unit 3) is
+discarded; `[13, 14]` (tail of unit 4); units 5..7 -/
+example : ltags (delivered [] 256 (lossyOf ((lstream 24).take 4) [([lpkt 4], ((lstream 24).drop 5).take 5),
+      (((lstream 24).drop 10).take 3, (lstream 24).drop 13)])) =
+    [[0, 1, 2], [5], [6, 7, 8], [13, 14], [15, 16, 17], [18, 19, 20], [21, 22, 23]] := by decide +kernel
+
+/-- `NoFalseStart` holds for the headless fragments of these units: their payload does not begin with the PES start
+code, so the unit parser returns no data -/
+example : NoFalseStart .none [] [lpkt 7, lpkt 8] ∧ NoFalseStart .none [] [lpkt 8] := by
+  constructor <;> simp [NoFalseStart, dataOf, parseData, lpkt, concatPayload, isPSIPayload, isPESPayload, ProgramMap.has]
+
+/-- … for every headless fragment of every unit of the test chain: the hypothesis `hnf` of `loss_one_gap_data` -/
+example : ∀ v ∈ lunits 8, ∀ f, Headless v f → NoFalseStart .none [] f := by
+  have hall : (lunits 8).all (fun v => v.packets.length == 3 &&
+      [1, 2].all (fun m => (dataOf .none [] (v.packets.drop m)).isEmpty)) = true := by decide +kernel
+  intro v hv f ⟨m, hm1, hm2, hf⟩
+  have := List.all_eq_true.mp hall v hv
+  simp only [Bool.and_eq_true, beq_iff_eq, List.all_cons, List.all_nil, Bool.and_true, List.isEmpty_iff] at this
+  obtain ⟨hlen, h1, h2⟩ := this
+  rw [hlen] at hm2
+  subst hf
+  have : m = 1 ∨ m = 2 := by omega
+  rcases this with rfl | rfl
+  · exact h1
+  · exact h2
+
+end LossClause
 
 end Astits.C06
